@@ -473,10 +473,6 @@ def row_class(case, r):
     nv = len(r.coeffs)
     if r.linear and r.route in ("lin", "props", "new", "ilin") and all(abs(c) < Fraction(1, 10 ** 12) for c in r.coeffs.values()):
         return "lin_zero_coeffs"             # every coefficient is (below 1e-12, treated as) zero: the row 0 rel K is never tested (D11)
-    if r.route == "props" and r.text.split()[1] == "eq" and nv == 1 and fl:
-        c = float(r.const / r.coeffs[fl[0]]); st = float(case.step)
-        if not (math.ceil(c / st) * st == c and math.floor(c / st) * st == c):
-            return "eq_const_offgrid"        # Eq<VarId,Val>: the variable is quantised to the grid, the constant view accepts no tolerance
     return None
 
 def fast_path_applies(case):
@@ -507,29 +503,6 @@ def mixed_eq_chain(case):
             for q in eqs:
                 if q is not r and fl & set(v for v in q.coeffs if case.is_float(v)):
                     return True
-    return False
-
-def bounds_pinch_offgrid(case):
-    """some float variable is pinched by var-constant comparisons posted at the props level (and its declared bounds) to a
-    NON-EMPTY exact interval [L, U] that contains no point the quantised bound updates can reach: a lower constant is rounded
-    UP to the step grid, an upper constant DOWN (Context::try_set_min/max), so ceil(L/step)*step > floor(U/step)*step + step/2
-    fails the propagation although L <= U.  (Until the repair `fast path candidates are verified` such models were answered
-    by the optimisation fast path, which does no quantisation; now they reach the search like every other model.)"""
-    st = case.step
-    for v, d in enumerate(case.decls):
-        if d[0] != "F": continue
-        lo, hi = Fraction(d[1]), Fraction(d[2]); qlo, qhi = lo, hi
-        for r in case.rows:
-            t = r.text.split()
-            if r.route != "props" or len(t) != 4 or t[1] not in ("leq", "geq", "lt", "gt", "eq") or t[2] != "x%d" % v or not t[3].startswith("f:"):
-                continue
-            c = r.const / r.coeffs[v]
-            if t[1] in ("leq", "lt", "eq"):
-                hi = min(hi, c); qhi = min(qhi, math.floor(c / st) * st)
-            if t[1] in ("geq", "gt", "eq"):
-                lo = max(lo, c); qlo = max(qlo, math.ceil(c / st) * st)
-        if lo <= hi and qlo > qhi + st / 2:
-            return True
     return False
 
 # ------------------------------------------------------------------------------------------------ generators
